@@ -779,6 +779,16 @@ func FileReadDir(f *os.File, n int) ([]fs.DirEntry, error) {
 	return out, nil
 }
 
+// FileBytes hands the whole content of an open file to the engine's model of a streaming decoder (one read).
+func FileBytes(f *os.File) []byte {
+	h, err := fileHandle(f, "read")
+	if err != nil || h.node.Kind == KindDir {
+		return nil
+	}
+	FS.log("fileread", h.name, "")
+	return h.node.Data
+}
+
 func FileClose(f *os.File) error {
 	h, err := fileHandle(f, "close")
 	if err != nil {
